@@ -2,6 +2,8 @@
 (* Validates a recorded clock trace of the real code (harness/src/bin/timearith.rs clock)  *)
 (* against Clock.tla's properties.  Events (ndjson, in per-lane happens-before order):      *)
 (*   {"ev":"read","lane":l,"s":..,"ns":..}            a monotonic reading                   *)
+(*   {"ev":"elapsed","lane":l,"base_s","base_ns","ds","dns","bs","bns","s","ns"}             *)
+(*                                                     MonotonicInstant::elapsed, bracketed  *)
 (*   {"ev":"sleep","lane":l,"ds","dns","bs","bns","s","ns","res"}  reading before, sleep(d), *)
 (*                                                     reading after, result of sleep()      *)
 (* Clock values are pairs (s, ns) compared lexicographically (ns < 10^9 < 2^31).  The       *)
@@ -34,7 +36,19 @@ SleepEv == /\ i <= Len(Rec) /\ Rec[i].ev = "sleep"
               /\ Leq(PlusD(b, d), a)
               /\ seen' = [seen EXCEPT ![Rec[i].lane] = a]
            /\ i' = i + 1 /\ nsleep' = nsleep + 1 /\ UNCHANGED nread
-Next == ReadEv \/ SleepEv
+\* MonotonicInstant::elapsed() of an earlier reading `base`, bracketed by the readings b and a:
+\* b <= base + d <= a (and the lane's observations stay ordered)
+ElapsedEv == /\ i <= Len(Rec) /\ Rec[i].ev = "elapsed"
+             /\ LET b == <<Rec[i].bs, Rec[i].bns>>
+                    a == <<Rec[i].s, Rec[i].ns>>
+                    base == <<Rec[i].base_s, Rec[i].base_ns>>
+                    d == <<Rec[i].ds, Rec[i].dns>> IN
+                /\ Norm(b) /\ Norm(a) /\ Norm(base) /\ d[2] >= 0 /\ d[2] < NPS /\ d[1] >= 0
+                /\ Leq(seen[Rec[i].lane], b)
+                /\ Leq(b, PlusD(base, d)) /\ Leq(PlusD(base, d), a)
+                /\ seen' = [seen EXCEPT ![Rec[i].lane] = a]
+             /\ i' = i + 1 /\ nread' = nread + 1 /\ UNCHANGED nsleep
+Next == ReadEv \/ SleepEv \/ ElapsedEv
 Done == i > Len(Rec) \/ ~ENABLED Next
 Report == Done => PrintT(<<"CLOCK", ToJson([n |-> Len(Rec), consumed |-> i - 1, reads |-> nread, sleeps |-> nsleep])>>)
 =============================================================================
